@@ -299,6 +299,7 @@ def complete_run(ctx, spec, workdir):
     ctx.case(("sequence", key), {"op": "compute(write_stages=True)", "config": key, "boundaries": len(log), "model": len(mseq), "rows": len(sim)})
     if observed != mseq:
         ctx.disagree("C17.stage-sequence", {"config": key, "code": observed, "model": mseq})
+    source_tie(ctx, key, target, spec["optical"], spec["radio"], observed)
     if len(log) != expect_k:
         ctx.disagree("C17.boundary-count", {"config": key, "code": len(log), "expected": expect_k})
         if not ctx.violations:
@@ -1054,6 +1055,32 @@ def name_and_history_streams(ctx, work):
                 judge_history(ctx, h, bases, fu.result(), "a fresh process per run")
     finally:
         os.chdir(old_cwd)
+
+
+def regen():
+    """source tie: Gen/Src/C14.lean (shared with C14) regenerated from compute() of the working tree (harness/orchtrans.py)"""
+    import orchtrans
+    return orchtrans.regen()
+
+
+def source_tie(ctx, key, target, optical, radio, observed):
+    """the writer operations the reader of the source predicts (harness/orchtrans.py) against the boundaries RECORDED from the
+    real compute() run (one snapshot per completed Table.write).  A difference is a broken tie, not by itself a violation."""
+    import orchtrans
+    st = ctx.extra.setdefault("source_tie", {}).setdefault("ops", {"runs_compared": 0, "differences": []})
+    try:
+        if "_orch" not in ctx.__dict__:
+            ctx._orch = orchtrans.read()
+        want = orchtrans.predict(ctx._orch, bool(target), bool(optical), bool(radio))
+    except Exception as e:  # noqa: BLE001 - the regeneration has already reported it as a broken obligation
+        ctx.disagree("source_tie.ops", {"error": f"{type(e).__name__}: {str(e)[:200]}"})
+        return
+    st["runs_compared"] += 1
+    ctx.count("source_tie.runs_compared")
+    if observed != want:
+        d = {"config": key, "recorded_from_the_run": observed, "read_from_the_source": want}
+        st["differences"].append(d)
+        ctx.disagree("source_tie.ops", d)
 
 
 def search(ctx: Ctx):
